@@ -42,30 +42,118 @@ func sameValue(a, b ssa.Value) bool {
 // norm strips conversions and looks through single-assignment variable cells (a parameter
 // or local captured by a closure is spilled to an Alloc that is stored exactly once).
 func norm(v ssa.Value) ssa.Value {
-	for i := 0; i < 6; i++ {
+	for i := 0; i < 10; i++ {
 		v = strip(v)
-		u, ok := v.(*ssa.UnOp)
-		if !ok || u.Op != token.MUL {
-			return v
-		}
-		al, ok := u.X.(*ssa.Alloc)
-		if !ok {
-			return v
-		}
-		var val ssa.Value
-		n := 0
-		for _, ref := range *al.Referrers() {
-			if st, ok := ref.(*ssa.Store); ok && st.Addr == al {
-				val = st.Val
-				n++
+		switch x := v.(type) {
+		case *ssa.Parameter:
+			// parameter of a helper with a single call site: the argument it is bound to
+			if a := paramArg(x); a != nil {
+				v = a
+				continue
 			}
-		}
-		if n != 1 || escapesToWriter(al) {
+			return v
+		case *ssa.FreeVar:
+			if n := freeVarValue1(x); n != nil {
+				v = n
+				continue
+			}
+			return v
+		case *ssa.UnOp:
+			if x.Op != token.MUL {
+				return v
+			}
+			switch a := x.X.(type) {
+			case *ssa.Alloc:
+				var val ssa.Value
+				n := 0
+				for _, ref := range *a.Referrers() {
+					if st, ok := ref.(*ssa.Store); ok && st.Addr == a {
+						val = st.Val
+						n++
+					}
+				}
+				if n != 1 || escapesToWriter(a) {
+					return v
+				}
+				v = val
+				continue
+			case *ssa.FreeVar:
+				if n := freeVarValue1(x); n != nil {
+					v = n
+					continue
+				}
+				return v
+			}
+			return v
+		default:
 			return v
 		}
-		v = val
 	}
 	return v
+}
+
+// freeVarValue1 resolves a captured variable (v = the FreeVar itself, or a load through it) to the
+// value bound in the creating function when there is exactly one creation site and, for cells,
+// exactly one store. Returns nil if not resolvable.
+func freeVarValue1(v ssa.Value) ssa.Value {
+	var fv *ssa.FreeVar
+	deref := false
+	switch x := v.(type) {
+	case *ssa.FreeVar:
+		fv = x
+	case *ssa.UnOp:
+		if f, ok := x.X.(*ssa.FreeVar); ok && x.Op == token.MUL {
+			fv, deref = f, true
+		}
+	}
+	if fv == nil {
+		return nil
+	}
+	fn := fv.Parent()
+	par := fn.Parent()
+	if par == nil {
+		return nil
+	}
+	idx := -1
+	for i, f := range fn.FreeVars {
+		if f == fv {
+			idx = i
+		}
+	}
+	var bound ssa.Value
+	n := 0
+	allInstrs(par, func(ins ssa.Instruction) {
+		if mc, ok := ins.(*ssa.MakeClosure); ok && mc.Fn == fn && idx >= 0 {
+			bound = mc.Bindings[idx]
+			n++
+		}
+	})
+	if n != 1 {
+		return nil
+	}
+	if !deref {
+		return bound
+	}
+	switch b := bound.(type) {
+	case *ssa.Alloc:
+		var val ssa.Value
+		cnt := 0
+		for _, ref := range *b.Referrers() {
+			if st, ok := ref.(*ssa.Store); ok && st.Addr == b {
+				val = st.Val
+				cnt++
+			}
+		}
+		if cnt != 1 || escapesToWriter(b) {
+			return nil
+		}
+		return val
+	case *ssa.FreeVar:
+		// a cell captured through two closure levels: resolve the outer level
+		inner := &ssa.UnOp{Op: token.MUL, X: b}
+		return freeVarValue1(inner)
+	}
+	return nil
 }
 
 // asFunc: the function a function-typed operand denotes when it is a closure literal (with or
@@ -82,72 +170,7 @@ func asFunc(v ssa.Value) *ssa.Function {
 
 // freeVarValue resolves a (load of a) captured variable to the value bound in the creating
 // function when that is unambiguous.
-func freeVarValue(v ssa.Value) ssa.Value {
-	for i := 0; i < 4; i++ {
-		var fv *ssa.FreeVar
-		deref := false
-		switch x := v.(type) {
-		case *ssa.FreeVar:
-			fv = x
-		case *ssa.UnOp:
-			if x.Op == token.MUL {
-				if f, ok := x.X.(*ssa.FreeVar); ok {
-					fv, deref = f, true
-				}
-			}
-		}
-		if fv == nil {
-			return v
-		}
-		fn := fv.Parent()
-		par := fn.Parent()
-		if par == nil {
-			return v
-		}
-		idx := -1
-		for i, f := range fn.FreeVars {
-			if f == fv {
-				idx = i
-			}
-		}
-		var bound ssa.Value
-		n := 0
-		allInstrs(par, func(ins ssa.Instruction) {
-			if mc, ok := ins.(*ssa.MakeClosure); ok && mc.Fn == fn && idx >= 0 {
-				bound = mc.Bindings[idx]
-				n++
-			}
-		})
-		if n != 1 {
-			return v
-		}
-		if deref {
-			// bound is the address of a cell in the parent
-			switch b := bound.(type) {
-			case *ssa.Alloc:
-				var val ssa.Value
-				cnt := 0
-				for _, ref := range *b.Referrers() {
-					if st, ok := ref.(*ssa.Store); ok && st.Addr == b {
-						val = st.Val
-						cnt++
-					}
-				}
-				if cnt != 1 || escapesToWriter(b) {
-					return v
-				}
-				v = norm(val)
-			case *ssa.FreeVar:
-				v = &ssa.UnOp{Op: token.MUL, X: b}
-			default:
-				return v
-			}
-		} else {
-			v = norm(bound)
-		}
-	}
-	return v
-}
+func freeVarValue(v ssa.Value) ssa.Value { return norm(v) }
 
 // escapesToWriter: the cell is captured by a closure that stores into it.
 func escapesToWriter(al *ssa.Alloc) bool {
@@ -175,44 +198,7 @@ func escapesToWriter(al *ssa.Alloc) bool {
 // sameExpr: structural equality of pure address/value expressions (two loads of the same field
 // of the same base, conversions of the same value …). go/ssa performs no CSE, so `c.slock`
 // evaluated twice yields two loads; for pairing lock operations that is the same lock.
-func sameExpr(a, b ssa.Value) bool {
-	a, b = norm(a), norm(b)
-	if sameValue(a, b) {
-		return true
-	}
-	switch x := a.(type) {
-	case *ssa.UnOp:
-		y, ok := b.(*ssa.UnOp)
-		return ok && x.Op == y.Op && sameExpr(x.X, y.X)
-	case *ssa.FieldAddr:
-		y, ok := b.(*ssa.FieldAddr)
-		return ok && x.Field == y.Field && sameExpr(x.X, y.X)
-	case *ssa.Field:
-		y, ok := b.(*ssa.Field)
-		return ok && x.Field == y.Field && sameExpr(x.X, y.X)
-	case *ssa.BinOp:
-		y, ok := b.(*ssa.BinOp)
-		return ok && x.Op == y.Op && sameExpr(x.X, y.X) && sameExpr(x.Y, y.Y)
-	case *ssa.Call:
-		y, ok := b.(*ssa.Call)
-		if !ok || x.Call.StaticCallee() == nil || x.Call.StaticCallee() != y.Call.StaticCallee() || len(x.Call.Args) != len(y.Call.Args) {
-			return false
-		}
-		// only for the pure block arithmetic helpers
-		switch calleeShort(&x.Call) {
-		case "commit.ChunkAt", "(commit.Chunk).Min", "(commit.Chunk).Max":
-		default:
-			return false
-		}
-		for i := range x.Call.Args {
-			if !sameExpr(x.Call.Args[i], y.Call.Args[i]) {
-				return false
-			}
-		}
-		return true
-	}
-	return false
-}
+func sameExpr(a, b ssa.Value) bool { return sameE(a, nil, b, nil, 0) }
 
 // callCommon extracts the CallCommon of call-like instructions.
 func callCommon(ins ssa.Instruction) (cc *ssa.CallCommon, isDefer, isGo bool) {
@@ -478,6 +464,30 @@ func dependsOn(v ssa.Value, pred func(ssa.Value) bool, depth int) bool {
 		case *ssa.Phi:
 			for _, e := range x.Edges {
 				if rec(e, d+1) {
+					return true
+				}
+			}
+		case *ssa.Parameter:
+			if a := paramArg(x); a != nil {
+				return rec(a, d+1)
+			}
+		case *ssa.FreeVar:
+			if a := freeVarValue1(x); a != nil {
+				return rec(a, d+1)
+			}
+		case *ssa.Call:
+			// the result of a helper depends on what the helper returns
+			if sc := x.Call.StaticCallee(); sc != nil && isHelper(sc) {
+				for _, ret := range returnsOf(originOf(sc)) {
+					for _, res := range ret.Results {
+						if rec(res, d+1) {
+							return true
+						}
+					}
+				}
+			}
+			for _, op := range x.Operands(nil) {
+				if *op != nil && rec(*op, d+1) {
 					return true
 				}
 			}
